@@ -243,6 +243,11 @@ func (n *Name) UnmarshalJSON(b []byte) error {
 	n.Names = appendATV(n.Names, aux.JurisdictionLocality, oidJurisdictionLocality)
 	n.Names = appendATV(n.Names, aux.JurisdictionProvince, oidJurisdictionProvince)
 
+	// QWACS
+	n.Names = appendATV(n.Names, aux.OrganizationID, oidOrganizationID)
+
+	n.Names = appendATV(n.Names, aux.GivenName, oidGivenName)
+	n.Names = appendATV(n.Names, aux.Surname, oidSurname)
 	n.Names = appendATV(n.Names, aux.CommonName, oidCommonName)
 	n.Names = appendATV(n.Names, aux.SerialNumber, oidSerialNumber)
 
@@ -255,6 +260,10 @@ func (n *Name) UnmarshalJSON(b []byte) error {
 	n.StreetAddress = aux.StreetAddress
 	n.PostalCode = aux.PostalCode
 	n.DomainComponent = aux.DomainComponent
+	n.EmailAddress = aux.EmailAddress
+	n.GivenName = aux.GivenName
+	n.Surname = aux.Surname
+	n.OrganizationIDs = aux.OrganizationID
 	// EV
 	n.JurisdictionCountry = aux.JurisdictionCountry
 	n.JurisdictionLocality = aux.JurisdictionLocality
